@@ -128,3 +128,115 @@ def check_bodies(ctx, facts, rule, bodies, label):
                                'guard `lhs %s rhs`: on every edge the stored operand is the greater one' % c['rel'],
                                {'verdicts': verdicts})
     return n_guards
+
+
+def map_identity(body, local):
+    """which map of *self a receiver reference denotes: ('self', field index) — also for a local that holds the
+    map taken out of a field with mem::take / mem::replace"""
+    out = set()
+    for r in referent_roots(body, local):
+        if r == 1:
+            # find the field projection used when borrowing
+            for _b, _j, s in body.assigns():
+                if s['rv']['k'] == 'ref' and s['rv']['pl']['l'] == 1:
+                    pass
+        for _b, t in body.calls():
+            if t['dest']['l'] == r and cname(t) in ('core::mem::take', 'core::mem::replace'):
+                out |= map_identity(body, op_local(t['args'][0]))
+    # direct borrow chain: walk reference definitions looking for `&(mut) (*_1).f`
+    seen, work = set(), [local]
+    while work:
+        l = work.pop()
+        if l in seen:
+            continue
+        seen.add(l)
+        for _b, _j, s in body.assigns():
+            if s['lhs']['l'] != l or s['lhs']['p']:
+                continue
+            rv = s['rv']
+            if rv['k'] in ('ref', 'copyderef'):
+                pl = rv['pl']
+                fs = [e['f'] for e in pl['p'] if isinstance(e, dict) and 'f' in e]
+                if pl['l'] == 1 and fs:
+                    out.add(('self', fs[0]))
+                elif pl['l'] != 1:
+                    work.append(pl['l'])
+                    # a plain local holding a map: look for mem::take producing it
+                    for _bb, t in body.calls():
+                        if t['dest']['l'] == pl['l'] and cname(t) in ('core::mem::take', 'core::mem::replace'):
+                            work.append(op_local(t['args'][0]))
+            elif rv['k'] == 'use' and op_local(rv['op']) is not None:
+                work.append(op_local(rv['op']))
+        for _bb, t in body.calls():
+            if t['dest']['l'] == l and cname(t) in ('core::ops::deref::Deref::deref', 'core::ops::deref::DerefMut::deref_mut'):
+                work.append(op_local(t['args'][0]))
+    return out
+
+
+LOOKUPS = re.compile(r'^(alloc::collections::btree::map::BTreeMap|std::collections::hash::map::HashMap)::(remove|get|get_mut|remove_entry|get_key_value)$')
+
+
+def check_blind_overwrites(ctx, facts, rule, bodies):
+    """B: a timestamp written into a map slot with `insert` must have competed with what the slot held: the stored value
+    derives from a lookup on the same map (re-insert) or from a max-join over one, or the store is dominated by a guard
+    that compares it with a value looked up in the same map.  (Entry::or_insert* writes only vacant slots.)"""
+    n = 0
+    for root in bodies:
+        body = root
+        flow = Flow(body, skip_deref_writes=True)
+        calls = list(body.calls())
+        lookups = []
+        for b, t in calls:
+            if cname(t) and LOOKUPS.match(cname(t)):
+                lookups.append((b, t, map_identity(body, op_local(t['args'][0]))))
+        cmps = [c for c in comparisons(body) if c['rel'] not in ('==', '!=') and c['lhs'] is not None and c['rhs'] is not None]
+        joins = [(b, t) for b, t in calls if cname(t) in ('core::cmp::max', 'core::cmp::Ord::max')]
+        for b, t in calls:
+            n_ = cname(t)
+            if not n_ or not re.match(r'^(alloc::collections::btree::map::BTreeMap|std::collections::hash::map::HashMap)::insert$', n_):
+                continue
+            vl = op_local(t['args'][-1])
+            if vl is None or not is_ts(body, vl):
+                continue
+            mid = map_identity(body, op_local(t['args'][0]))
+            if not mid:
+                continue
+            n += 1
+            vb = flow.backward([vl])
+            same = [(lb, lt) for lb, lt, lm in lookups if lm & mid]
+            ok = None
+            # (i) re-insert of what was looked up
+            if any(lt['dest']['l'] in vb and body.dominates(lb, b) for lb, lt in same):
+                ok = 're-insert of the value looked up in the same map'
+            # (ii) max-join over a lookup of the same map
+            for jb, jt in joins:
+                if jt['dest']['l'] in vb and any(lt['dest']['l'] in flow.backward([op_local(a) for a in jt['args'] if op_local(a) is not None]) for lb, lt in same):
+                    ok = ok or 'max-join with the value looked up in the same map'
+            # (iii) dominated by a guard edge comparing the stored value with a value looked up in the same map
+            for c in cmps:
+                la, lb_ = flow.backward([c['lhs']]), flow.backward([c['rhs']])
+                for side_val, side_old in ((la, lb_), (lb_, la)):
+                    if (vb & side_val) and any(lt['dest']['l'] in side_old for _lb, lt in same):
+                        for kind in ('true', 'false'):
+                            e = c[kind + '_edge']
+                            if e[1] is not None and body.edge_dominates(e, b):
+                                ok = ok or 'guarded by a comparison with the value held in the same map'
+            # (iv) re-insert of the map's own former content: the value comes from iterating the map taken out of the same field
+            for nb, nt in calls:
+                if cname(nt) == 'core::iter::traits::iterator::Iterator::next' and nt['dest']['l'] in vb:
+                    for l in flow.backward([op_local(nt['args'][0])]):
+                        for _bb, tk in calls:
+                            if tk['dest']['l'] == l and cname(tk) in ('core::mem::take', 'core::mem::replace') and \
+                                    map_identity(body, op_local(tk['args'][0])) & mid:
+                                ok = ok or 're-insert of an entry of the same map (iterating the copy taken out of it)'
+            short = body.name.replace('datacake_crdt::orswot::', '')
+            names = None
+            key = '%s|store#%d' % (short, len([o for o in ctx.obs if o.rule == rule and o.key.startswith(short + '|store#')]))
+            if ok:
+                ctx.ok(rule, key, site(body, t['cs']), 'timestamp written with insert: ' + ok)
+            else:
+                ctx.bad(rule, key, site(body, t['cs']),
+                        'a timestamp is written into a map slot with `insert` without competing with what the slot may already hold (no lookup / '
+                        'max-join / guard on the same map): an older operation arriving later overwrites a newer one, so the outcome depends on '
+                        'arrival / merge order')
+    return n
